@@ -39,6 +39,8 @@ Inductive ekind :=
 | KBranchEnd (jid : nat)                             (* harness: a branch goroutine returns *)
 | KJoin (jid : nat)                                  (* harness: all branches returned, none with an error *)
 | KJoinFail (jid : nat) (cs : list nat)              (* harness: all branches returned, one with an error: the compute function returns it *)
+| KOutAdd (n : nat) (shinv shrel : bool)             (* reactive.addOut with a released dependant nobody else knows (AddDependency outside a rerunner) *)
+| KPhInv                                             (* reactive.invalidate.* on that placeholder *)
 | KStopCancel (r : nat)                              (* reactive.stop.cancel *)
 | KStopMark (r : nat) (hadcomp : bool).              (* reactive.stop.mark *)
 
@@ -48,7 +50,8 @@ Inductive event :=
 | EInvalidate (sl ver fresh : nat)
 | EStop (r : nat)
 | EPurge (r : nat)
-| ETimer (n : nat).
+| ETimer (n : nat)
+| EOutside (sl res : nat).
 
 Definition is_some {A} (o : option A) : bool := match o with Some _ => true | None => false end.
 
@@ -135,6 +138,8 @@ Definition match_arg (f : frame) (k : ekind) : option nat :=
   | FUnlock r, KUnlock r' => if Nat.eqb r r' then Some 0 else None
   | FStop r false, KStopCancel r' => if Nat.eqb r r' then Some 0 else None
   | FStop r true, KStopMark r' _ => if Nat.eqb r r' then Some 0 else None
+  | FOutAdd n, KOutAdd n' _ _ => if Nat.eqb n n' then Some 0 else None
+  | FPhInv, KPhInv => Some 0
   | _, _ => None
   end.
 
@@ -205,6 +210,9 @@ Definition obs_ok (s : state) (f : frame) (rest : list frame) (k : ekind) : bool
   | KArm c wasinv => Bool.eqb wasinv (n_inv (getN s c))
   | KUnlock _ => true
   | KStopCancel _ => true
+  | KOutAdd n shinv shrel =>
+      let '(_, (a, c)) := g_add_out_released (s_nodes s) n in Bool.eqb a shinv && Bool.eqb c shrel
+  | KPhInv => true
   | KStopMark r had => Bool.eqb had (is_some (r_comp (getr s r)))
   end.
 
@@ -320,6 +328,10 @@ Fixpoint replay (s : state) (b : list (nat * nat)) (i : nat) (es : list event) :
       | EStop r => match step s (LStop r) with Some s1 => replay s1 b (S i) t | None => inr (4, i) end
       | EPurge r => match step s (LPurge r) with Some s1 => replay s1 b (S i) t | None => inr (4, i) end
       | ETimer n => match step s (LTimer n) with Some s1 => replay s1 b (S i) t | None => inr (4, i) end
+      | EOutside sl res =>
+          if Nat.eqb res (slot_res s sl) then
+            match step s (LOutside sl) with Some s1 => replay s1 b (S i) t | None => inr (4, i) end
+          else inr (4, i)
       end
   end.
 
